@@ -79,4 +79,17 @@ theorem reach_runSched {σ : Type} (step : σ → Tok → Option (σ × List Str
 def moName : Nat → String
   | 0 => "rlx" | 1 => "con" | 2 => "acq" | 3 => "rel" | 4 => "ar" | 5 => "sc" | _ => "?"
 
+/-- union of two sets of write ids kept as duplicate-free lists (`a` then what `b` adds): with a plain
+`++` a thread that is writer and reader doubles its set at every release/acquire pair -/
+def kmerge (a b : List Nat) : List Nat := a ++ b.filter (fun x => !a.contains x)
+
+theorem mem_kmerge_left {a : List Nat} (b : List Nat) {x : Nat} (h : x ∈ a) : x ∈ kmerge a b :=
+  List.mem_append_left _ h
+
+theorem mem_kmerge_right (a : List Nat) {b : List Nat} {x : Nat} (h : x ∈ b) : x ∈ kmerge a b := by
+  unfold kmerge
+  by_cases ha : x ∈ a
+  · exact List.mem_append_left _ ha
+  · exact List.mem_append_right _ (List.mem_filter.2 ⟨h, by simpa using ha⟩)
+
 end MgModel.Conc
